@@ -226,8 +226,17 @@ def run(chk, facts, tier, only=None):
                     tgt = inner[0]["args"]
                     # where is this probe? find an enclosing `if` whose condition contains it
                     holder = None
+                    # the probe's result may be named first: `let holds = probe.is_ok(); if !holds { restore }`
+                    named = None
+                    for st in nodes(h["body"], "slet"):
+                        if st.get("init") is not None and unblock(st["init"]) is n and (st.get("pat") or {}).get("k") == "bind":
+                            named = st["pat"]["n"]
+
+                    def is_probe_ref(x):
+                        return x is n or (named is not None and x.get("k") == "path" and (x.get("res") or {}).get("kind") == "Local"
+                                          and (x.get("res") or {}).get("path") == named)
                     for cand in nodes(h["body"], "if"):
-                        if any(x is n for x in walk(cand["c"])):
+                        if any(is_probe_ref(x) for x in walk(cand["c"])):
                             holder = cand
                     saved = None
                     for st in nodes(h["body"], "slet"):
@@ -237,7 +246,7 @@ def run(chk, facts, tier, only=None):
                     restored = False
                     if holder is not None and saved:
                         fail_branch = holder.get("e") if n["m"] == "is_ok" else holder.get("t")
-                        negated = any(x.get("k") == "un" and x.get("op") == "Not" and any(y is n for y in walk(x)) for x in walk(holder["c"]))
+                        negated = any(x.get("k") == "un" and x.get("op") == "Not" and any(is_probe_ref(y) for y in walk(x)) for x in walk(holder["c"]))
                         if negated:
                             fail_branch = holder.get("t") if n["m"] == "is_ok" else holder.get("e")
                         for a in nodes(fail_branch or {}, "assign"):
